@@ -17,6 +17,16 @@ spec->code, harness area "num"):
                    with scalar or complex leading part
   Interp.tla       piecewise constant / linear / Hermite / Akima / Fritsch-Butland / natural / clamped /
                    not-a-knot interpolants on <= 6 integer knots by rational elimination
+  GaussHermite.tla Gauss-Hermite moments as rational multiples of sqrt(pi) (n = 1..20 every k <= 2n-1, tabulated
+                   n <= 200 and the asymptotic branch n > 200), structure clauses, the first inexact moment k = 2n,
+                   the default rule of quad.Fixed on (semi-)infinite ranges (rational integrals), and the
+                   argument contracts of integrate / integrate/quad / interp as a decision table
+  QuatFun.tla      elementary functions of quaternions: expression trees over gonum's own functions with exact
+                   rational values (definitions through Exp, first integrals, inverse pairs, exact squares and
+                   integer powers, similarity and conjugation symmetry, real-argument reduction, documented
+                   special values, IsInf / IsNaN / Abs truth tables)
+  NumText.tla      positional decimal notation; fmt.Formatter layouts of the five number types; quat.Parse on
+                   generated strings of the documented format, on malformed strings, and Parse(Format(q)) = q
 """
 import json
 import os
@@ -78,11 +88,48 @@ def interp_stages(ctx, thorough, seed):
 
 def dfun_stages(ctx, thorough, seed):
     fns = S("Inv", "Log", "Sqrt", "SqrtSq", "PowInt", "PowHalf", "Atan", "Atanh", "Asin", "Acos", "Asinh", "Acosh",
-            "Exp", "Sin", "Cos", "Sinh", "Cosh", "Tan", "Tanh", "ExpLog", "PowNum2", "LogMul")
-    return [("elementary functions dual+hyperdual (derivative parts, identities)", "num/DualFun.tla", "num/DualFun_gen.cfg",
+            "Exp", "Sin", "Cos", "Sinh", "Cosh", "Tan", "Tanh", "ExpLog", "PowNum2", "LogMul", "Special")
+    return [("elementary functions dual+hyperdual (derivative parts, identities, documented special values)", "num/DualFun.tla", "num/DualFun_gen.cfg",
              dict(TYPES=S("dual", "hyper"), FUNS=fns, NVAR=4, SEED=seed)),
-            ("elementary functions dualquat+dualcmplx (scalar / complex leading part)", "num/DualFun.tla", "num/DualFun_gen.cfg",
-             dict(TYPES=S("dquat", "dcmplx"), FUNS=S("Log", "Sqrt", "PowInt", "Exp"), NVAR=4, SEED=seed))]
+            ("elementary functions dualquat+dualcmplx (scalar / complex leading part, Pow, documented special values)", "num/DualFun.tla", "num/DualFun_gen.cfg",
+             dict(TYPES=S("dquat", "dcmplx"), FUNS=S("Log", "Sqrt", "PowInt", "PowNum", "Exp", "Special"), NVAR=4, SEED=seed))]
+
+
+def iset(xs):
+    return "{" + ",".join(str(x) for x in sorted(set(xs))) + "}"
+
+
+def hermite_stages(ctx, thorough, seed):
+    spec, cfg = "num/GaussHermite.tla", "num/GaussHermite_gen.cfg"
+    if thorough:
+        small, big = range(1, 200), [200, 201, 202, 203, 204, 205, 250, 301, 400, 500, 1000]
+        st = [("gauss-hermite n=1..199 every moment k<=min(2n-1,100)", dict(KINDS=S("ghs", "ghm"), NSET=iset(small), KCAP=100, KALL=1, SEED=seed)),
+              ("gauss-hermite n>=200 (asymptotic branch n>200) every moment k<=100", dict(KINDS=S("ghs", "ghm"), NSET=iset(big), KCAP=100, KALL=1, SEED=seed)),
+              ("gauss-hermite n=2000..8000 (Airy roots beyond the ten tabulated ones), selected moments",
+               dict(KINDS=S("ghs", "ghm"), NSET=iset([2000, 5000, 6747, 6748, 7000, 8000]), KCAP=60, KALL=0, SEED=seed))]
+    else:
+        st = [("gauss-hermite n=1..20 every moment k<=2n-1", dict(KINDS=S("ghs", "ghm"), NSET=iset(range(1, 21)), KCAP=60, KALL=1, SEED=seed)),
+              ("gauss-hermite tabulated n<=200 and asymptotic n>200, selected moments k<=60",
+               dict(KINDS=S("ghs", "ghm"), NSET=iset([25, 50, 64, 100, 150, 199, 200, 201, 202, 250, 301, 500, 7000] + [21 + (seed * 37) % 170, 203 + (seed * 53) % 300]),
+                    KCAP=60, KALL=0, SEED=seed))]
+    st.append(("default rule on (semi-)infinite ranges; argument contracts of integrate, quad, interp",
+               dict(KINDS=S("ginf", "ctr"), NSET="{1}", KCAP=1, KALL=0, SEED=seed)))
+    return [(n, spec, cfg, s) for n, s in st]
+
+
+def quat_stages(ctx, thorough, seed):
+    spec, cfg = "num/QuatFun.tla", "num/QuatFun_gen.cfg"
+    if thorough:
+        groups = [("definitions, first integrals, inverse pairs", ("def", "pyth", "inv")), ("similarity invariance", ("sim",)),
+                  ("conjugation, powers, real arguments, special values, branch cuts", ("conj", "pow", "real", "special", "cut"))]
+        return [("quaternion functions " + n, spec, cfg, dict(GROUPS=S(*g), TIER=1, SEED=seed)) for n, g in groups]
+    return [("quaternion functions (definitions, identities, symmetries, exact points, special values)", spec, cfg,
+             dict(GROUPS=S("def", "pyth", "inv", "sim", "conj", "pow", "real", "special", "cut"), TIER=0, SEED=seed))]
+
+
+def text_stages(ctx, thorough, seed):
+    return [("text forms: Format of quat / dual / hyperdual / dualquat / dualcmplx, quat.Parse", "num/NumText.tla", "num/NumText_gen.cfg",
+             dict(KINDS=S("format", "parse", "reject", "round"), NVEC=16 if thorough else 6, NPARSE=1200 if thorough else 240, SEED=seed))]
 
 
 def run(ctx):
@@ -90,8 +137,9 @@ def run(ctx):
     thorough = ctx.tier == "thorough"
     seed = ctx.seed % 1000
     hb = ctx.build("")
-    stages = quad_stages(ctx, thorough, seed) + fd_stages(ctx, thorough, seed) + alg_stages(ctx, thorough, seed) + interp_stages(ctx, thorough, seed) + dfun_stages(ctx, thorough, seed)
-    stages.sort(key=lambda st: ("Hessian" not in st[0], "dquat" not in st[0], "simpson" not in st[0]))   # longest first
+    stages = (quad_stages(ctx, thorough, seed) + fd_stages(ctx, thorough, seed) + alg_stages(ctx, thorough, seed) + interp_stages(ctx, thorough, seed)
+              + dfun_stages(ctx, thorough, seed) + hermite_stages(ctx, thorough, seed) + quat_stages(ctx, thorough, seed) + text_stages(ctx, thorough, seed))
+    stages.sort(key=lambda st: ("Hessian" not in st[0], "dquat" not in st[0], "quaternion" not in st[0], "simpson" not in st[0]))   # longest first
 
     def one(st):
         name, spec, cfg, subst = st
@@ -105,13 +153,20 @@ def run(ctx):
         "TLC/SANY and the CommunityModules Json module are trusted",
         "the harness's decoding of the spec's rationals (exactness of the float conversion is asserted), the "
         "big.Rat comparison and the integrands it hands to gonum (x^k by repeated multiplication, polynomial "
-        "evaluation on dyadic points) are trusted",
+        "evaluation on dyadic points, the rational / algebraic integrands of the default-rule cases) are trusted",
+        "Gauss-Hermite: the specification's expected values are rational multiples of sqrt(pi); the harness multiplies by "
+        "the one constant math.Sqrt(math.Pi)",
+        "quaternion identities: both sides of an identity are evaluated by gonum (the specification supplies the identity, "
+        "the exact rotated / squared / inverted arguments and the rational value); the rounding allowance is tolu*2^-52 times "
+        "the largest modulus among the leaves and intermediate values of the printed expression",
+        "fmt (package fmt's formatting of float64 and complex128) and strconv.ParseFloat are trusted; the shortest "
+        "decimal of a float with a terminating expansion of at most 15 digits is that expansion",
     ]
     return ctx.finish(
         rule="one case = one gonum call (or one node/weight table) on operands printed by the specification whose "
              "result was compared with the specification's exact rational value within the specification's rounding "
              "allowance (0 where the spec proves the float computation exact); non-trivial = integrand of degree >= 1 / "
-             "any Gauss-Legendre case",
+             "any Gauss-Legendre / Gauss-Hermite case / every quaternion identity / every text case / every contract case that must panic",
         exhaustive=False)
 
 
